@@ -35,7 +35,8 @@
      MBUFF_BLOCK_OK((o)->buff, (o)->size)))
 #define MBUFF_POST(o)      MBUFF_POST_CAP(o, VCAP)
 
-/* frame of a mutator: the three fields and the bytes of the buffer it owned on entry */
+/* frame of a mutator: the three fields and the bytes of the buffer it owned on entry.
+ * (ends in a conditional target group: further targets go into a separate __CPROVER_assigns clause) */
 #define MBUFF_FRAME(o)     (o)->buff, (o)->len, (o)->size; (o)->buff != NULL: __CPROVER_object_whole((o)->buff)
 /* frame of a constructor on raw storage */
 #define MBUFF_FRAME_INIT(o) (o)->parent.cls, (o)->buff, (o)->len, (o)->size
